@@ -54,6 +54,12 @@ def run(index, rep, tier):
     rep.rule("R17.5", "child-order independence: wherever a statistic picks children by position, the positions enter only symmetric expressions")
     rep.rule("R17.6", "treeness = internal / (internal + external): the accumulator fed by non-leaf edges is the numerator and the denominator adds both")
 
+    rep.rule("R17.7", "the statistics are functions of the tree alone: no function of the tree-statistics module keeps module-level state between calls")
+    with rep.section("R17.7"):
+        ng = module_state_rule(index, rep, "R17.7", [TMS])
+        fns = [f for f in index.functions_in_module(TMS)]
+        rep.ob("R17.7", "src/dendropy/calculate/treemeasure.py:1", "%d functions of treemeasure examined for writes to %d module-level containers" % (len(fns), ng), True)
+        rep.floor("R17.7", "functions in the tree-statistics module", 8, len(fns))
     cna = index.function(TREE + ".calc_node_ages")
     pm = parent_map(cna.node)
 
